@@ -366,16 +366,17 @@ def GS.intersectS : GS → GS → PyM GS
 /-- `set(a).issubset(set(b))` -/
 def subsetL {α : Type} [DecidableEq α] (a b : List α) : Bool := a.all (fun c => b.contains c)
 
+/-- `isinstance(constraint, MultiConstraint) and frozenset(constraint.constraints) in seen_multi_constraints` -/
+def sameMultiSeen (new : List GS) : GS → Bool
+  | .multi _ cs => new.any (fun n => match n with
+    | .multi _ ds => subsetL ds cs && subsetL cs ds
+    | _ => false)
+  | _ => false
+
 /-- `add_unseen_constraint`.  `seen_multi_constraints` always holds exactly the `frozenset`s of the
 multi-constraints already in `new_constraints`, so it is read off `new`. -/
 def addUnseen (new : List GS) (c : GS) : List GS :=
-  if c.isEmpty || new.contains c ||
-      (match c with
-       | .multi _ cs => new.any (fun n => match n with
-          | .multi _ ds => subsetL ds cs && subsetL cs ds
-          | _ => false)
-       | _ => false)
-  then new else new ++ [c]
+  if c.isEmpty || new.contains c || sameMultiSeen new c then new else new ++ [c]
 
 def crossRow (our : GS) : List GS → List GS → PyM (List GS)
   | [], new => .ok new
@@ -653,15 +654,20 @@ def Atom.den (a : Atom) (v : String) : Bool :=
   | .in_ => strIn a.value v
   | .nc => !strIn a.value v
 
-def GS.den : GS → String → Bool
-  | .any, _ => true
-  | .empty, _ => false
-  | .atom a, v => a.den v
-  | .multi _ cs, v => cs.all (fun c => c.den v)
+/-- meaning of a constraint given the meaning `f` of its atoms (at one fixed probe) -/
+def GS.sem (f : Atom → Bool) : GS → Bool
+  | .any => true
+  | .empty => false
+  | .atom a => f a
+  | .multi _ cs => cs.all f
 
-def GC.den : GC → String → Bool
-  | .s c, v => c.den v
-  | .union ms, v => ms.any (fun c => c.den v)
+def GC.sem (f : Atom → Bool) : GC → Bool
+  | .s c => c.sem f
+  | .union ms => ms.any (fun c => c.sem f)
+
+def GS.den (c : GS) (v : String) : Bool := c.sem (fun a => a.den v)
+
+def GC.den (c : GC) (v : String) : Bool := c.sem (fun a => a.den v)
 
 /-- `in` / `not in` have no meaning for `extra` (the constructor rejects them); they denote `false`. -/
 def Atom.denX (a : Atom) (E : String → Bool) : Bool :=
@@ -670,15 +676,37 @@ def Atom.denX (a : Atom) (E : String → Bool) : Bool :=
   | .ne => !E a.value
   | _ => false
 
-def GS.denX : GS → (String → Bool) → Bool
-  | .any, _ => true
-  | .empty, _ => false
-  | .atom a, E => a.denX E
-  | .multi _ cs, E => cs.all (fun c => c.denX E)
+def GS.denX (c : GS) (E : String → Bool) : Bool := c.sem (fun a => a.denX E)
 
-def GC.denX : GC → (String → Bool) → Bool
-  | .s c, E => c.denX E
-  | .union ms, E => ms.any (fun c => c.denX E)
+def GC.denX (c : GC) (E : String → Bool) : Bool := c.sem (fun a => a.denX E)
+
+/-! ## well-formedness: the shapes parser and algebra produce in the `==`/`!=` fragment -/
+
+def Atom.isEqNe (a : Atom) : Bool := a.op == .eq || a.op == .ne
+
+/-- single-valued variant: plain `Constraint` atoms with `==`/`!=`; a `MultiConstraint` holds `!=` atoms. -/
+def GS.wfG : GS → Bool
+  | .any => true
+  | .empty => true
+  | .atom a => !a.x && a.isEqNe
+  | .multi x cs => !x && cs.all (fun c => !c.x && c.op == .ne)
+
+/-- … and a `UnionConstraint` has at least one member -/
+def GC.wfG : GC → Bool
+  | .s c => c.wfG
+  | .union ms => !ms.isEmpty && ms.all GS.wfG
+
+/-- `extra` variant: `ExtraConstraint` atoms with `==`/`!=`; an `ExtraMultiConstraint` mentions every
+value once. -/
+def GS.wfX : GS → Bool
+  | .any => true
+  | .empty => true
+  | .atom a => a.x && a.isEqNe
+  | .multi x cs => x && cs.all (fun c => c.x && c.isEqNe) && decide ((cs.map (fun c => c.value)).Nodup)
+
+def GC.wfX : GC → Bool
+  | .s c => c.wfX
+  | .union ms => !ms.isEmpty && ms.all GS.wfX
 
 /-! ## parser (`generic/parser.py`) -/
 
